@@ -85,6 +85,12 @@ class Atomizer:
         if isinstance(e, ast.UnaryOp) and isinstance(e.op, ast.Not):
             p = self.compile(e.operand)
             return lambda a: not p(a)
+        if isinstance(e, ast.IfExp):
+            t, b, o = self.compile(e.test), self.compile(e.body), self.compile(e.orelse)
+            return lambda a: b(a) if t(a) else o(a)
+        if isinstance(e, ast.Constant) and isinstance(e.value, bool):
+            v = e.value
+            return lambda a: v
         if isinstance(e, ast.Compare) and len(e.ops) == 1:
             l, op, r = e.left, e.ops[0], e.comparators[0]
             if isinstance(op, (ast.Is, ast.IsNot)):
